@@ -23,8 +23,8 @@ type pgCfg struct {
 	pfx    uint8
 	unlock uint8 // types unlocked with SetLock(t, false)
 	sid    string
-	lang   string // language code
-	hasLn  bool   // SetLanguage called
+	lang   string      // language code
+	hasLn  bool        // SetLanguage called
 	init   [][2]string // rows committed before the history starts (storage key, value)
 }
 
@@ -139,7 +139,12 @@ type pgRun struct {
 }
 
 // pgExec runs one history on a fresh pgDb over a fresh fake server.
-func pgExec(cfg pgCfg, ops []pop, faults []bool) pgRun {
+func pgExec(cfg pgCfg, ops []pop, faults []bool) pgRun { return pgExecR(cfg, ops, faults, true) }
+
+// pgCalls only counts the primitive driver calls a history makes under a fault script.
+func pgCalls(cfg pgCfg, ops []pop, faults []bool) int { return pgExecR(cfg, ops, faults, false).calls }
+
+func pgExecR(cfg pgCfg, ops []pop, faults []bool, record bool) pgRun {
 	ctx := context.Background()
 	srv := fakepg.New()
 	for _, kv := range cfg.init {
@@ -193,6 +198,9 @@ func pgExec(cfg pgCfg, ops []pop, faults []bool) pgRun {
 		if pk {
 			res = "PPanic"
 			r.panics++
+		}
+		if !record {
+			continue
 		}
 		log := srv.Log()
 		evs := make([]string, 0, len(log)-seen)
@@ -300,22 +308,26 @@ func runPg(o opts) error {
 	if o.tier == "thorough" {
 		maxLen = 5
 	}
-	type visit func(cfg pgCfg, ops []pop, faults []bool, nfaults int)
-	enumerate := func(cfg pgCfg, f visit) {
+	// one element of the universe = (key context, history, fault positions). The positions are
+	// enumerated adaptively: i ranges over the driver calls of the fault-free run, j > i over the
+	// calls of the run with fault i (positions beyond the calls actually made change nothing).
+	type hist struct {
+		cfg    pgCfg
+		ops    []pop
+		calls0 int
+		callsI []int
+	}
+	var hists []hist
+	for _, cfg := range []pgCfg{user, trans, transD} {
 		var rec func(ops []pop)
 		rec = func(ops []pop) {
 			if len(ops) > 0 {
-				h := append([]pop{}, ops...)
-				r0 := pgExec(cfg, h, nil)
-				f(cfg, h, nil, 0)
-				for i := 0; i < r0.calls; i++ {
-					fi := faultScript(i)
-					ri := pgExec(cfg, h, fi)
-					f(cfg, h, fi, 1)
-					for j := i + 1; j < ri.calls; j++ {
-						f(cfg, h, faultScript(i, j), 2)
-					}
+				h := hist{cfg: cfg, ops: append([]pop{}, ops...)}
+				h.calls0 = pgCalls(cfg, h.ops, nil)
+				for i := 0; i < h.calls0; i++ {
+					h.callsI = append(h.callsI, pgCalls(cfg, h.ops, faultScript(i)))
 				}
+				hists = append(hists, h)
 			}
 			if len(ops) == maxLen {
 				return
@@ -326,10 +338,12 @@ func runPg(o opts) error {
 		}
 		rec(nil)
 	}
-	// pass 1: size of the universe
 	universe := 0
-	for _, cfg := range []pgCfg{user, trans, transD} {
-		enumerate(cfg, func(pgCfg, []pop, []bool, int) { universe++ })
+	for _, h := range hists {
+		universe += 1 + h.calls0
+		for i, ci := range h.callsI {
+			universe += ci - i - 1
+		}
 	}
 	budget := o.n
 	if budget <= 0 {
@@ -337,19 +351,32 @@ func runPg(o opts) error {
 	}
 	advBudget := budget / 8
 	p := float64(budget-advBudget) / float64(universe)
-	// pass 2: every fault-free history of length <= 2 and every element selected by the seeded PRNG
+	// every fault-free history of length <= 2 and every element selected by the seeded PRNG
 	idx := 0
 	selected := 0
-	for _, cfg := range []pgCfg{user, trans, transD} {
-		enumerate(cfg, func(cfg pgCfg, ops []pop, faults []bool, nf int) {
-			idx++
-			keep := (nf == 0 && len(ops) <= 2) || hx.Rng(o.seed, "pg-select", idx).Float64() < p
-			if !keep {
-				return
+	sel := hx.Rng(o.seed, "pg-select", 0)
+	visit := func(h hist, faults []bool, nf int) {
+		// one PRNG per block of 4096 universe indices (seeding a PRNG per element dominates the run time)
+		if idx%4096 == 0 {
+			sel = hx.Rng(o.seed, "pg-select", idx/4096)
+		}
+		idx++
+		draw := sel.Float64()
+		keep := (nf == 0 && len(h.ops) <= 2) || draw < p
+		if !keep {
+			return
+		}
+		selected++
+		add(h.cfg, h.ops, faults, fmt.Sprintf("enum:len%d:faults%d", len(h.ops), nf))
+	}
+	for _, h := range hists {
+		visit(h, nil, 0)
+		for i := 0; i < h.calls0; i++ {
+			visit(h, faultScript(i), 1)
+			for j := i + 1; j < h.callsI[i]; j++ {
+				visit(h, faultScript(i, j), 2)
 			}
-			selected++
-			add(cfg, ops, faults, fmt.Sprintf("enum:len%d:faults%d", len(ops), nf))
-		})
+		}
 	}
 	w.Stats["universe_size"] = universe
 	w.Stats["universe_selected"] = selected
